@@ -126,7 +126,7 @@ void h_scan(void) {
   char *cache = malloc(1);
   int have_size; uint64_t size; ldb_tabinfo_t *t;
   __CPROVER_assume(rep != NULL && cache != NULL);
-  g_rep = rep; g_dbname[0] = 'd'; g_dbname[1] = 0; rep->dbname = g_dbname; rep->table_cache = (ldb_tables_t *)cache;
+  g_rep = rep; g_pin_buf = NULL; g_dbname[0] = 'd'; g_dbname[1] = 0; rep->dbname = g_dbname; rep->table_cache = (ldb_tables_t *)cache;
   ldb_readopt_default = &g_readopt0;
   /* the table's content: arbitrary length, arbitrary parse results described by F, L, W, M */
   __CPROVER_assume(g_sc_n < (1ul << 31));       /* fewer than 2^31 entries: 'counter' is an int (see observations) */
@@ -159,7 +159,7 @@ void h_scan(void) {
     CHECK(g_sc_meta != NULL && g_sc_iterate_calls == 1 && g_sc_it_number == in_number && g_sc_it_size == size, "scan: the table is opened with its number and the size found on disk");
     CHECK(g_sc_it_verify == rep->options.paranoid_checks, "scan: block checksums are verified iff paranoid_checks");
     CHECK(g_sc_firsts == 1 && g_sc.pos == g_sc_n && g_sc_iter_destroys == 1, "scan: every entry is visited, from the first; the iterator is released");
-    CHECK(g_arch_calls == 0, "scan: a readable table is not archived by the scan itself");
+    if (g_rt_calls == 0) CHECK(g_arch_calls == 0, "scan: a readable table is not archived by the scan itself");
     CHECK(t->meta.number == in_number && t->meta.file_size == size, "scan: the record carries the table's number and size");
     if (g_sc_F < g_sc_n) {
       CHECK(g_sc_small_copies == 1 && g_sc_small_src == g_sc_keybase + g_sc_F, "scan: smallest = the FIRST parsable internal key");
@@ -174,6 +174,6 @@ void h_scan(void) {
       CHECK(g_rt_calls == 1 && g_rt_t == t && g_sc_push_calls == 0, "scan: iterator error => the table is NOT registered as it is; it is handed to repair_table (salvage into a new file)");
     }
   }
-  CHECK(g_arch_removes == 0, "scan: nothing is unlinked");
+  CHECK(g_arch_removes == 0, "scan: nothing is unlinked by the scan");
   CANARY();
 }
